@@ -199,6 +199,8 @@ def run(ctx, rep):
     rep.require(not sccs, "no-recursion", "in-crate call graph acyclic in scope", "-", "no SCC", "recursive cycle(s): %s" % sccs)
     # (3) iterators, to a fixpoint (delegation)
     nexts = iterator_nexts(F)
+    from ._common import iterators_only_next
+    iterators_only_next(F, rep, "iterator", None, 7)
     bounded, reasons = set(), {}
     changed = True
     while changed:
